@@ -82,6 +82,8 @@ fn run_collection(rec: &mut Rec, sh: &[&SharingS], coll: &[Item], what: &str, ca
       b
     })
     .collect();
+  rec.evals += 1;
+  rec.case(&(what.to_string(), sh[0].t, coll.len()));
   rec.ev("attack_collection");
   let out = quiet(rec, || {
     let shares: Option<Vec<Share>> = bytes.iter().map(|b| Share::from_bytes(b)).collect();
@@ -499,12 +501,12 @@ fn shape(rec: &mut Rec, _ctx: &Ctx, idx: u64, rng: &mut ChaCha20Rng, global: &Mu
 }
 
 pub fn run(ctx: &Ctx) -> Rec {
-  let mut rec = par_run(ctx, "attacks", ctx.n(400, 20_000), |rec, i, rng| attacks(rec, ctx, i, rng));
-  rec.merge(par_run(ctx, "scanner", ctx.n(800, 40_000), |rec, i, rng| scanner(rec, ctx, i, rng)));
+  let mut rec = par_run(ctx, "attacks", ctx.n(1200, 30_000), |rec, i, rng| attacks(rec, ctx, i, rng));
+  rec.merge(par_run(ctx, "scanner", ctx.n(2000, 60_000), |rec, i, rng| scanner(rec, ctx, i, rng)));
   let global: Mutex<HashMap<Vec<u8>, u64>> = Mutex::new(HashMap::new());
   // the shape stream includes deliberate neighbours: every 4 consecutive cases
   // share a measurement and differ in epoch or threshold only
-  rec.merge(par_run(ctx, "shape", ctx.n(1200, 60_000), |rec, i, rng| shape(rec, ctx, i, rng, &global)));
+  rec.merge(par_run(ctx, "shape", ctx.n(2400, 100_000), |rec, i, rng| shape(rec, ctx, i, rng, &global)));
   rec.note("global_coefficient_set", json!(global.lock().unwrap().len()));
   rec
 }
